@@ -2,9 +2,9 @@
    Statements only; every proof is `exact <lemma from Proofs/>`.
    [mk_screen rows arity ctrl tmap smap obs_given mask_given = Ok s] is "s can be constructed". *)
 From Coq Require Import ZArith List Bool.
-From Batchie Require Import Lib.Sexp Lib.PyRt Generated.Consts Model.Encode Model.Screen
+From Batchie Require Import Lib.Sexp Lib.PyRt Generated.Consts Model.Encode Model.Screen Model.Persist
   Proofs.C01Encode Proofs.C01Screen Proofs.C01Props Generated.SrcArithC01
-  Generated.SrcEncode Generated.SrcScreenIds Proofs.C01Source Proofs.C01SourceInit.
+  Generated.SrcEncode Generated.SrcScreenIds Generated.SrcSpaceMethods Proofs.C01Source Proofs.C01SourceInit.
 Import ListNotations.
 Open Scope Z_scope.
 
@@ -285,6 +285,93 @@ Theorem C01_model_is_source_n_unique_treatments : forall s : screen,
 Proof. exact src_space_n_treatments_is_model. Qed.
 Print Assumptions C01_model_is_source_n_unique_treatments.
 
+(* ---- ExperimentSpace: the constructor and the query methods (Generated/SrcSpaceMethods.v; models: last part of Model/Persist.v).
+   An ExperimentSpace object is [pyspace] = its three attributes as stored; [pyspace_of sp] is the object of the model space sp. ---- *)
+
+(* __init__ stores its three arguments, whatever the instance held before *)
+Theorem C01_model_is_source_space_init : forall (o : pyspace) (tm : tmap_arrays) (sm : smap_arrays) (c : name),
+  src_space_init o tm sm c = Ok (tm, sm, c).
+Proof. exact src_space_init_stores. Qed.
+Print Assumptions C01_model_is_source_space_init.
+
+(* the constructor-call primitive of the from_screen / load_h5 links (C02: arrays_space) is this constructor *)
+Theorem C01_model_is_source_space_init_arrays : forall (tm : tmap_arrays) (sm : smap_arrays) (c : name) (sp : space),
+  arrays_space tm sm c = Ok sp -> src_space_init blank_pyspace tm sm c = Ok (pyspace_of sp).
+Proof. exact arrays_space_is_src_init. Qed.
+Print Assumptions C01_model_is_source_space_init_arrays.
+
+Theorem C01_model_is_source_n_unique_treatment_types : forall sp : space,
+  src_space_n_unique_treatment_types (pyspace_of sp) = Ok (space_n_treatment_types sp).
+Proof. exact src_space_n_treatment_types_is_model. Qed.
+Print Assumptions C01_model_is_source_n_unique_treatment_types.
+
+Theorem C01_model_is_source_n_unique_doses : forall sp : space,
+  src_space_n_unique_doses (pyspace_of sp) = Ok (space_n_doses sp).
+Proof. exact src_space_n_doses_is_model. Qed.
+Print Assumptions C01_model_is_source_n_unique_doses.
+
+Theorem C01_model_is_source_doses_for_treatment : forall (sp : space) (nm : name),
+  src_space_doses_for_treatment (pyspace_of sp) nm = Ok (space_doses_for_treatment sp nm).
+Proof. exact src_space_doses_for_treatment_is_model. Qed.
+Print Assumptions C01_model_is_source_doses_for_treatment.
+
+Theorem C01_model_is_source_treatment_ids_from_treatment_name : forall (sp : space) (nm : name),
+  src_space_treatment_ids_from_treatment_name (pyspace_of sp) nm = Ok (space_treatment_ids_of_name sp nm).
+Proof. exact src_space_treatment_ids_from_name_is_model. Qed.
+Print Assumptions C01_model_is_source_treatment_ids_from_treatment_name.
+
+Theorem C01_model_is_source_sample_id_from_sample_name : forall (sp : space) (nm : name),
+  src_space_sample_id_from_sample_name (pyspace_of sp) nm = space_sample_id sp nm.
+Proof. exact src_space_sample_id_is_model. Qed.
+Print Assumptions C01_model_is_source_sample_id_from_sample_name.
+
+Theorem C01_model_is_source_sample_name_from_sample_id : forall (sp : space) (i : Z),
+  src_space_sample_name_from_sample_id (pyspace_of sp) i = space_sample_name sp i.
+Proof. exact src_space_sample_name_is_model. Qed.
+Print Assumptions C01_model_is_source_sample_name_from_sample_id.
+
+(* what the translated methods answer on the space from_screen builds for a constructed screen.
+   The two sample lookups are mutually inverse (a supplied sample mapping must not repeat a name or an id) ... *)
+Theorem C01_space_sample_lookups_inverse : forall rows a ctrl tm sm og mg s,
+  mk_screen rows a ctrl tm sm og mg = Ok s ->
+  match sm with Some (m, _) => NoDup (map fst m) /\ NoDup (map snd m) | None => True end ->
+  forall nm i,
+  src_space_sample_id_from_sample_name (pyspace_of (space_of_screen s)) nm = Ok i
+  <-> src_space_sample_name_from_sample_id (pyspace_of (space_of_screen s)) i = Ok nm.
+Proof. exact src_sample_lookups_inverse. Qed.
+Print Assumptions C01_space_sample_lookups_inverse.
+
+(* ... every sample of the screen has an id, the one its experiments carry ... *)
+Theorem C01_space_sample_id_of_row : forall rows a ctrl tm sm og mg s,
+  mk_screen rows a ctrl tm sm og mg = Ok s ->
+  match sm with Some (m, _) => NoDup (map fst m) /\ NoDup (map snd m) | None => True end ->
+  forall r, In r (s_rows s) ->
+  src_space_sample_id_from_sample_name (pyspace_of (space_of_screen s)) (r_sample r) = Ok (nid_of (s_smap s) (r_sample r)).
+Proof. exact src_sample_id_of_row. Qed.
+Print Assumptions C01_space_sample_id_of_row.
+
+(* ... and an id the lookup returns lies below n_unique_samples *)
+Theorem C01_space_sample_id_bounded : forall rows a ctrl tm og mg s nm i,
+  mk_screen rows a ctrl tm None og mg = Ok s ->
+  src_space_sample_id_from_sample_name (pyspace_of (space_of_screen s)) nm = Ok i -> 0 <= i < space_n_samples s.
+Proof. exact src_sample_id_bounded. Qed.
+Print Assumptions C01_space_sample_id_bounded.
+
+(* the ids of a treatment name are the sentinel or lie below n_unique_treatments *)
+Theorem C01_space_treatment_ids_bounded : forall rows a ctrl tm sm og mg s nm i,
+  mk_screen rows a ctrl tm sm og mg = Ok s ->
+  match tm with Some (_, b) => b = true | None => True end ->
+  In i (space_treatment_ids_of_name (space_of_screen s) nm) ->
+  i = CONTROL_SENTINEL_VALUE \/ 0 <= i < space_n_treatments s.
+Proof. exact space_treatment_ids_of_name_bounded. Qed.
+Print Assumptions C01_space_treatment_ids_bounded.
+
+(* the doses of a treatment name: exactly the non-zero doses of the mapping rows of that name *)
+Theorem C01_space_doses_for_treatment_spec : forall (sp : space) (nm : name) (d : Z),
+  In d (space_doses_for_treatment sp nm) <-> (d <> 0 /\ In (nm, d) (map fst (sp_tmap sp))).
+Proof. exact space_doses_for_treatment_spec. Qed.
+Print Assumptions C01_space_doses_for_treatment_spec.
+
 (* non-vacuity of the links: the translated functions run on the example above *)
 Example C01_example_source_valid_ids :
   src_numpy_array_is_0_indexed_integers (true, [1; -1; 0; 1]) = Ok true /\
@@ -301,3 +388,17 @@ Example C01_example_source_init :
   exists ids, src_init_ids (names_arr 2 ex_rows) (doses_arr 2 ex_rows) (map r_sample ex_rows) (map r_plate ex_rows) None None []
               = Ok ids /\ snd (fst (fst (fst (fst ids)))) = (2%nat, [[Some 0; Some 1]; [Some 0; Some (-1)]; [Some (-1); Some 1]]).
 Proof. eexists. vm_compute. split; reflexivity. Qed.
+
+(* the translated ExperimentSpace methods run: names "a" "b", control "", doses 5 7 0; samples "s" "t" *)
+Definition ex_space : space :=
+  {| sp_tmap := [(([], 7), -1); (([97], 5), 0); (([98], 0), -1); (([98], 7), 1); (([98], 5), 2)];
+     sp_smap := [([115], 0); ([116], 1)]; sp_ctrl := [] |}.
+Example C01_example_source_space :
+  src_space_n_unique_treatment_types (pyspace_of ex_space) = Ok 2 /\
+  src_space_n_unique_doses (pyspace_of ex_space) = Ok 2 /\
+  src_space_doses_for_treatment (pyspace_of ex_space) [98] = Ok [5; 7] /\
+  src_space_treatment_ids_from_treatment_name (pyspace_of ex_space) [98] = Ok [-1; 1; 2] /\
+  src_space_sample_id_from_sample_name (pyspace_of ex_space) [116] = Ok 1 /\
+  src_space_sample_name_from_sample_id (pyspace_of ex_space) 0 = Ok [115] /\
+  src_space_sample_id_from_sample_name (pyspace_of ex_space) [117] = Err 36.
+Proof. vm_compute. repeat split. Qed.
